@@ -145,7 +145,7 @@ func (fc *fnCtx) callFunction(st *State, x *ssa.Call, callee *ssa.Function, args
 		if v, ok := fc.specByContract(st, callee, args, false); ok {
 			return []Val{v}
 		}
-		if c != nil && c.Pure && !c.Inline && callee.Signature.Results().Len() == 1 && allScalar(args) {
+		if c != nil && c.Pure && !c.Inline && callee.Signature.Results().Len() == 1 && (allScalar(args) || c.PureRefs) {
 			if v, err := fc.specCall(st, callee, args); err == nil {
 				return []Val{v}
 			}
@@ -500,7 +500,7 @@ func (fc *fnCtx) applyContract(st *State, callee *ssa.Function, c *Contract, arg
 	// 3. results + postconditions
 	sig := callee.Signature
 	var results []Val
-	if c.Pure && sig.Results().Len() == 1 && allScalar(args) {
+	if c.Pure && sig.Results().Len() == 1 && (allScalar(args) || c.PureRefs) {
 		// a pure function of scalar arguments: the same uninterpreted application as in specifications
 		name := "spec." + sanitize(callee.String())
 		var srts, ts []string
@@ -829,7 +829,7 @@ func (fc *fnCtx) specCall(st *State, fn *ssa.Function, args []Val) (Val, error) 
 	if v, ok := fc.specByContract(st, fn, args, false); ok {
 		return v, nil
 	}
-	if c := fc.eng.contractFor(fn); c != nil && c.Pure && !c.Inline && sig.Results().Len() == 1 && allScalar(args) {
+	if c := fc.eng.contractFor(fn); c != nil && c.Pure && !c.Inline && sig.Results().Len() == 1 && (allScalar(args) || c.PureRefs) {
 		// the same uninterpreted symbol as at code call sites
 		name := "spec." + sanitize(full)
 		var srts, ts []string
